@@ -4,6 +4,7 @@ from world import World
 import scen_proto
 import scen_group
 import scen_state
+import scen_util
 
 SHIPPED = ("shipped", "custom", "toyint", "toyed")
 
@@ -22,6 +23,8 @@ def std(gen, want=SHIPPED, batch=400):
 ALL = ("shipped", "custom", "toyint", "toyed", "edgen")
 
 REGISTRY = {
+    "C11": std(scen_util.gen_C11, ("shipped", "toyint"), batch=4),
+    "C17": std(scen_util.gen_C17, ()),
     "C07": std(scen_state.gen_C07, ("shipped", "toyint", "toyed"), batch=3000),
     "C08": std(scen_state.gen_C08),
     "C09": std(scen_state.gen_C09),
